@@ -243,3 +243,5 @@ func shortCids(l []cid.Cid) []string {
 	}
 	return out
 }
+
+func cidLink(c cid.Cid) datamodel.Link { return cidlink.Link{Cid: c} }
